@@ -86,7 +86,24 @@ class _NullRec:
         pass
 
 
+HANGS = {"sync": 0, "async": 0}
+HANG_LIMIT_S = 12.0            # the session timeout of these cases is 0.08 s
+
+
 def public_api_case(client, cfg, op, make_dgram):
+    """public_api_case_inner under a time limit: a call that has not returned after HANG_LIMIT_S is recorded as 'DidNotReturn' (the
+    thread is abandoned; after two such cases the client is not driven any further - each abandoned call may spin for ever)"""
+    from vlib import bounded
+    if HANGS[client] >= 2:
+        return None
+    st, r = bounded.call(lambda: public_api_case_inner(client, cfg, op, make_dgram), HANG_LIMIT_S)
+    if st == "hang":
+        HANGS[client] += 1
+        return ("DidNotReturn", [], True)
+    return r
+
+
+def public_api_case_inner(client, cfg, op, make_dgram):
     """the same stimulus through the PUBLIC API (sync / async SnmpSession; get, get_many and the getnext / getbulk iterators):
     the Python layer above the socket is part of the receive path.  Returns (exception name, bases, isexc)."""
     import asyncio
@@ -270,7 +287,10 @@ def run(tier):
             continue
         for client in (["sync", "async"] if whole else [["sync", "async"][(ki // step) % 2]]):
             try:
-                name, bases, isexc = public_api_case(client, cfg, op, lambda req, m=m, cfg=cfg: patch_ids(m["b"], req, cfg))
+                r3 = public_api_case(client, cfg, op, lambda req, m=m, cfg=cfg: patch_ids(m["b"], req, cfg))
+                if r3 is None:
+                    continue                       # this client already failed to return twice: not driven further
+                name, bases, isexc = r3
             except BaseException as e:  # noqa
                 name, bases, isexc = "HARNESS:" + type(e).__name__, [], True
             recs.append(dict(exc=name, bases=bases, isexc=isexc, op=op))
@@ -289,7 +309,8 @@ def run(tier):
                     res, _el = c18.run_flood(client, std[cfgname])
                 except BaseException as e:  # noqa
                     res = "HARNESS:" + type(e).__name__
-                ok_names = ("delivered", "TimeoutError")
+                if res == "NotRun":
+                    continue
                 recs.append(dict(exc="" if res == "delivered" else res, bases=[], isexc=res != "PanicException", op="get"))
                 items.append(("api", dict(cfg=cfgname, op=client + ".get", mutant=dict(t="stray-flood", mut="across-deadline", why="", b=[]))))
                 chk.case(("flood", client, cfgname, rep))
